@@ -58,7 +58,7 @@ fn main() {
     // every witness group runs under catch_unwind: an input on which a witness cannot even set its scenario up (signing, building,
     // serialising unexpectedly fails or panics) is itself a finding, reported as `witness-aborted` with the panic message
     let groups: Vec<(&str, fn(&mut Report))> = match prop {
-        "C14" => vec![("c14", c14::run), ("fuzz", fuzz::run), ("c20", c20::run), ("c03", c03::run), ("c06", c01::run_c06)],
+        "C14" => vec![("c14", c14::run), ("fuzz", fuzz::run), ("c20", c20::run), ("c03", c03::run), ("c06", c01::run_c06), ("c04", c01::run_c04)],
         "C18" => vec![("c18", c18::run)],
         "C19" => vec![("c19", c19::run)],
         "C20" => vec![("c20", c20::run)],
